@@ -276,6 +276,104 @@ def check_outdir(job):
             "cls": msgs[0].split(":")[0] if msgs else None}
 
 
+def check_cli_combo(job):
+    """every subset of the command-line option flags at once, over both backgrounds: each option follows its own
+    sources (a flag must not disturb, or be lost because of, another flag)"""
+    flags, bg = job
+    dflt = defaults()
+    box = fsbox.Box("c16c")
+    msgs = []
+    try:
+        box.build({"in/a.cmake": "set(A 1)\n"})
+        s_tree, u_tree = background(dflt, None) if bg else ({}, {})
+        if bg:
+            s_tree.setdefault("input", {})["exclude_filters"] = ["s1"]
+            u_tree.setdefault("input", {})["exclude_filters"] = ["u1"]
+            s_tree.setdefault("output", {})["directory"] = box.path("s-out")
+            u_tree.setdefault("output", {})["directory"] = box.path("u-out")
+        argv = []
+        for f in flags:
+            argv += {"-r": ["-r"], "-p": ["-p", "cli_prefix"], "-e": ["-e", "c1"], "-o": ["-o", box.path("cli-out")]}[f]
+        st, status, exc = run_main(box, argv, s_tree if bg else None, u_tree or None)
+        if st is None:
+            msgs.append(f"error: main() failed with flags {list(flags)}: {exc}")
+        else:
+            def low(sec, opt, typ):
+                return ((not dflt[(sec, opt)]) if typ == "bool" else value_for(typ, "sfile", opt)) if bg else dflt[(sec, opt)]
+            want = {("input", "recursive"): True if "-r" in flags else low("input", "recursive", "bool"),
+                    ("rst", "prefix"): "cli_prefix" if "-p" in flags else low("rst", "prefix", "str"),
+                    ("input", "exclude_filters"): sorted((["c1"] if "-e" in flags else []) + (["s1", "u1"] if bg else [])),
+                    ("output", "directory"): box.path("cli-out") if "-o" in flags else (box.path("s-out") if bg else None)}
+            for sec, opt, typ in OPTIONS:
+                want.setdefault((sec, opt), low(sec, opt, typ))
+            for (sec, opt), w in sorted(want.items()):
+                g = get(st, sec, opt)
+                if (sec, opt) == ("input", "exclude_filters"):
+                    g = sorted(g)
+                elif isinstance(g, (list, tuple)):
+                    g = list(g)
+                if (sec, opt) == ("output", "directory") and g is not None and w is not None:
+                    g, w = os.path.normpath(g), os.path.normpath(w)
+                if g != w:
+                    msgs.append(f"precedence: {sec}.{opt} is {g!r}, expected {w!r} with command-line flags {list(flags)} "
+                                f"({'both files set every option' if bg else 'no settings files'})")
+    finally:
+        box.cleanup()
+    msgs = [m.replace(box.root, "<box>") for m in msgs]
+    return {"viol": msgs[:4], "obs": common.digest([job, not msgs]), "n": 1, "nt": common.digest(job) if flags else None,
+            "cls": "precedence" if msgs else None}
+
+
+def check_two_runs(job):
+    """two runs of cminx.main in one process; the settings file of one source is rewritten in between (same path, pinned
+    modification time): the second run follows the second content"""
+    sec, opt, typ, src, second = job      # second: "other" (another value) | "unset" (the file no longer sets it)
+    dflt = defaults()
+    box = fsbox.Box("c16t")
+    msgs = []
+    try:
+        box.build({"in/a.cmake": "set(A 1)\n"})
+        v1 = (not dflt[(sec, opt)]) if typ == "bool" else value_for(typ, "sfile", opt)
+        v2 = dflt[(sec, opt)] if typ == "bool" else value_for(typ, "user", opt)
+        t1 = {sec: {opt: v1}}
+        t2 = {sec: {opt: v2}} if second == "other" else {"rst": {"module_path_separator": "/"}} if (sec, opt) != ("rst", "module_path_separator") else {}
+        want2 = v2 if second == "other" else dflt[(sec, opt)]
+        import cminx
+        rec = []
+        saved = cminx.document
+        cminx.document = lambda input_file, settings: rec.append(settings)
+        try:
+            os.makedirs(box.path("sdir"), exist_ok=True)
+            os.makedirs(box.path("cfg"), exist_ok=True)
+            res = []
+            for tree in (t1, t2):
+                rec.clear()
+                if src == "sfile":
+                    with open(box.path("sdir", "s.yaml"), "w") as f:
+                        f.write(yaml_dump(tree) if tree else "{}\n")
+                    os.utime(box.path("sdir", "s.yaml"), (pipeline.FIXED_MTIME, pipeline.FIXED_MTIME))
+                    r = box.run(["-s", box.path("sdir", "s.yaml"), "in"], cwd="work", user_config=None)
+                else:
+                    r = box.run(["in"], cwd="work", user_config=yaml_dump(tree) if tree else "{}\n")
+                res.append((rec[0] if rec else None, r))
+        finally:
+            cminx.document = saved
+        for n, ((st, r), w) in enumerate(zip(res, (v1, want2))):
+            if st is None:
+                msgs.append(f"error: run {n + 1} failed: {r['exc'] or r['stdout'][-200:]}")
+                continue
+            g = get(st, sec, opt)
+            g = list(g) if isinstance(g, (list, tuple)) else g
+            if g != w:
+                msgs.append(f"{'precedence' if n == 0 else 'stale'}: run {n + 1} of 2 in one process: {sec}.{opt} is {g!r}, expected {w!r} "
+                            f"(the {src} file {'sets another value' if second == 'other' else 'no longer sets it'} in run 2)")
+    finally:
+        box.cleanup()
+    msgs = [m.replace(box.root, "<box>") for m in msgs]
+    return {"viol": msgs[:3], "obs": common.digest([job, not msgs]), "n": 2, "nt": common.digest(job),
+            "cls": msgs[0].split(":")[0] if msgs else None}
+
+
 WRONG = {"bool": ["maybe", ["a"], 3, 1, 0], "str": [["l"], {"k": "v"}, False, 0, []], "list": [{"k": "v"}, 5]}
 
 
@@ -336,6 +434,11 @@ def run(ctx):
     ctx.sweep(check_outdir, ojobs, space="output directory resolution", selftest=2)
     wjobs = [(sec, opt, typ, src, bad) for sec, opt, typ in OPTIONS for src in ("sfile", "user") for bad in WRONG[typ]]
     ctx.sweep(check_wrong_type, wjobs, space="wrong-typed values", selftest=2)
+    flagsets = [fs for k in range(0, 5) for fs in itertools.combinations(("-r", "-p", "-e", "-o"), k)]
+    ctx.sweep(check_cli_combo, [(fs, bg) for fs in flagsets for bg in (False, True)],
+              space="subsets of command-line flags x backgrounds", selftest=2)
+    tjobs = [(sec, opt, typ, src, second) for sec, opt, typ in OPTIONS for src in ("sfile", "user") for second in ("other", "unset")]
+    ctx.sweep(check_two_runs, tjobs, space="two runs in one process, settings file rewritten in between", selftest=2)
     ctx.cov["bounds"] = {"options": [f"{s}.{o}" for s, o, _ in OPTIONS] + ["input.exclude_filters", "output.directory"],
                          "sources": PRIORITY + ["defaults"]}
     ctx.assumptions += ["the logging section is outside the statement", "a store_true flag can only set True",
@@ -344,6 +447,10 @@ def run(ctx):
 
 
 def replay(case):
+    if isinstance(case, list) and len(case) == 2 and isinstance(case[1], bool):
+        return check_cli_combo((tuple(case[0]), case[1]))["viol"]
+    if isinstance(case, list) and len(case) == 5 and case[4] in ("other", "unset"):
+        return common.in_fork(check_two_runs, tuple(case))["viol"]
     if isinstance(case, list) and len(case) == 3 and isinstance(case[0], list):
         return check_pair((tuple(case[0]), tuple(case[1]), case[2]))["viol"]
     if isinstance(case, list) and len(case) == 5 and isinstance(case[3], dict):
